@@ -45,7 +45,7 @@ def REQUIRED_COVER(tier):
 
 def shards(tier, seed):
     from . import c03
-    out = c03.shards(tier, seed)
+    out = c03.shards(tier, seed, objects=False)
     k = 8 if tier == 'quick' else 32
     out += [{'fn': 'shard_objects', 'args': {'part': p, 'parts': k}} for p in range(k)]
     return out
